@@ -151,6 +151,9 @@ static void run_class(const ClassAdapter<T>& A, int depth) {
         std::string r1 = apply_mut(A, *x, st);
         bool ok1 = false; std::string p1;
         try { ok1 = A.ok(*x); p1 = A.print(*x); } catch (...) {}
+        // whatever lazy computation the comparison below performs on the original (closure, minimization, solve())
+        // is forced here, so that a crash of the ORIGINAL in it is attributed to the original, not to the loaded copy
+        try { (void)A.equal(*x, *x); } catch (...) {}
         long long my2 = sub++;
         pool().step(my2);
         int tg = ((item + (long long)m) % 2 == 0) ? -1 : (int)((item + (long long)m) % (long long)A.initials.size());
@@ -270,6 +273,18 @@ int main(int argc, char** argv) {
 #elif VF_GROUP == 13
   run_class(xshape_adapter<PPL::Octagonal_Shape<double> >("Octagonal_Shape<double>"), depth);
   run_class(xshape_adapter<PPL::Octagonal_Shape<int16_t> >("Octagonal_Shape<int16_t>"), depth);
+#elif VF_GROUP == 14
+  run_class(powerset_adapter<PPL::NNC_Polyhedron>("Pointset_Powerset<NNC_Polyhedron>"), depth);
+  run_class(powerset_adapter<PPL::Grid>("Pointset_Powerset<Grid>"), depth);
+#elif VF_GROUP == 15
+  run_class(powerset_adapter<PPL::Rational_Box>("Pointset_Powerset<Rational_Box>"), depth);
+  run_class(product_adapter<PPL::Domain_Product<PPL::NNC_Polyhedron, PPL::Grid>::Direct_Product>("Direct_Product<NNC_Polyhedron,Grid>"), depth);
+#elif VF_GROUP == 16
+  run_class(product_adapter<PPL::Domain_Product<PPL::C_Polyhedron, PPL::Grid>::Congruences_Product>("Congruences_Product<C_Polyhedron,Grid>"), depth);
+  run_class(product_adapter<PPL::Domain_Product<PPL::BD_Shape<mpq_class>, PPL::Grid>::Shape_Preserving_Product>("Shape_Preserving_Product<BD_Shape<mpq_class>,Grid>"), depth);
+#elif VF_GROUP == 17
+  run_class(pip_tree_adapter(), depth);
+  run_class(mip_int_adapter(), depth);
 #else
 #error "VF_GROUP not set"
 #endif
